@@ -95,6 +95,18 @@ pub fn run(ctx: &mut Ctx) {
                     "custom" if f["ty"]["id"] == "ConInfo" => {
                         for byte in 4..7usize { for v in 0..=255u8 { if quick && v % 5 != 0 && v % 16 != 15 { continue; } let mut b = base[off..off + 16].to_vec(); b[byte] = v; variants.push(b); } }
                     },
+                    // the two sub-typed hand-written codecs: every (mode, sub-mode, selection type) / (sub-type, small values and bit patterns)
+                    "custom" if f["ty"]["id"] == "CimMode" => {
+                        for m in 0..=8u8 { for sm in 0..=12u8 { for sel in [0u8, 1, 2, 255] { variants.push(vec![m, sm, sel]); } } }
+                    },
+                    "custom" if f["ty"]["id"] == "SmallType" => {
+                        for st in 0..=12u8 {
+                            for uv in [0u32, 1, 2, 3, 4, 0x40, 0x44, 0x301, 0x10001, 0x400040, 0x7f0075, 0x0fff, 0x7fffffff, 0xffffffff] {
+                                let mut b = vec![st]; b.extend_from_slice(&uv.to_le_bytes()); variants.push(b);
+                            }
+                            for bit in 0..32u32 { let mut b = vec![st]; b.extend_from_slice(&(1u32 << bit).to_le_bytes()); variants.push(b); }
+                        }
+                    },
                     "custom" if f["ty"]["id"] == "RaceLaps" || f["ty"]["id"] == "Fuel" || f["ty"]["id"] == "Fuel200" => for v in 0..=255u8 { variants.push(vec![v]); },
                     _ => {},
                 }
@@ -109,5 +121,5 @@ pub fn run(ctx: &mut Ctx) {
             ctx.count(&format!("kind {} swept", kind));
         }
     }
-    ctx.exhaustive_domains.push("per kind and mode: every enumerant, every single flag constant, boundary integers of every integer field, every race-length / fuel byte, all 256 values of each packed ConInfo byte (thinned in quick)".into());
+    ctx.exhaustive_domains.push("per kind and mode: every enumerant, every single flag constant, boundary integers of every integer field, every race-length / fuel byte, every IS_CIM (mode, sub-mode, selection) up to 8/12, every IS_SMALL sub-type x {small values, each single bit}, all 256 values of each packed ConInfo byte (thinned in quick)".into());
 }
